@@ -1,8 +1,10 @@
 pub mod ast;
 pub mod gen;
 pub mod kw;
+pub mod model;
 pub mod render;
 pub mod tape;
+pub mod universe;
 
 pub fn snippets() -> &'static [String] {
     use std::sync::OnceLock;
